@@ -21,3 +21,11 @@ It witness_c07(Seqs& seqs, It target, std::ptrdiff_t size, tlx::MultiwayMergeAlg
     t = tlx::stable_parallel_multiway_merge_sentinels(seqs.begin(), seqs.end(), t, size, std::less<T>(), a, s, threads);
     return t;
 }
+
+// exact splitting rests on multisequence_partition; its twin multisequence_selection is instantiated with the same
+// arguments so that the agreement rule of C08 can be applied to the partition used here
+#include <tlx/algorithm/multisequence_selection.hpp>
+T witness_c07_twin(Seqs& seqs, std::ptrdiff_t rank) {
+    std::ptrdiff_t off;
+    return tlx::multisequence_selection<T>(seqs.begin(), seqs.end(), rank, off, std::less<T>());
+}
